@@ -10,6 +10,7 @@
 import OHVerif.Props.C15
 import OHVerif.Props.C08
 import OHVerif.Props.C07
+import OHVerif.Lemmas.StrictWF
 
 namespace OH.Eval
 open OH OH.Prim OH.Graph Relation
@@ -396,5 +397,854 @@ theorem runLayers_valuation {d : PDiag O A} {opfn : A → List T → List T} {df
     exact h.ops j e hj (hl.lt j (List.getElem?_eq_some_iff.1 hj).1)
   · intro v hv hni hnt
     exact h.rest v hv hni (fun j e he _ => hnt e (List.mem_of_getElem? he))
+
+/-! #### uniqueness of valuations -/
+
+theorem pdiag_wf_unpack {d : PDiag O A} (hwf : d.wf = true) :
+    (∀ v ∈ d.ins, v < d.n) ∧ (∀ v ∈ d.outs, v < d.n) ∧
+      ∀ e ∈ d.edges, (∀ v ∈ e.src, v < d.n) ∧ (∀ v ∈ e.tgt, v < d.n) := by
+  simp only [PDiag.wf, Bool.and_eq_true, List.all_eq_true, decide_eq_true_eq] at hwf
+  exact ⟨hwf.1.1, hwf.1.2, hwf.2⟩
+
+/-- two valuations of a diagram whose dependency relation admits a strictly increasing numbering
+    agree on every node (no single-writer hypothesis is needed for uniqueness) -/
+theorem valuation_unique_of_lay {d : PDiag O A} {opfn : A → List T → List T} {dflt : T}
+    {s : List T} {val val' : Nat → T} (lay : Nat → Nat) (hwf : d.wf = true)
+    (hdep : ∀ x y, opDep d x y → lay x < lay y)
+    (h : IsValuation d opfn dflt s val) (h' : IsValuation d opfn dflt s val') :
+    ∀ v, v < d.n → val v = val' v := by
+  obtain ⟨_, _, hedges⟩ := pdiag_wf_unpack hwf
+  have hins : ∀ v ∈ d.ins, val v = val' v := List.map_inj_left.1 (h.ins.trans h'.ins.symm)
+  have hedge : ∀ k j e, lay j = k → d.edges[j]? = some e → ∀ v ∈ e.tgt, val v = val' v := by
+    intro k
+    induction k using Nat.strong_induction_on with
+    | _ k ih =>
+      intro j e hk he
+      have hmem := List.mem_of_getElem? he
+      have hsrc : e.src.map val = e.src.map val' := by
+        apply List.map_congr_left
+        intro u hu
+        have hun : u < d.n := (hedges e hmem).1 u hu
+        by_cases hui : u ∈ d.ins
+        · exact hins u hui
+        · by_cases hut : ∃ j' : Nat, ∃ e' : PEdge A, d.edges[j']? = some e' ∧ u ∈ e'.tgt
+          · obtain ⟨j', e', he', hue'⟩ := hut
+            have := hdep j' j ⟨e', e, u, he', he, hue', hu⟩
+            exact ih (lay j') (by omega) j' e' rfl he' u hue'
+          · have hno : ∀ e' ∈ d.edges, u ∉ e'.tgt := by
+              intro e' he' hue'
+              obtain ⟨j', hj'⟩ := List.getElem?_of_mem he'
+              exact hut ⟨j', e', hj', hue'⟩
+            rw [h.rest u hun hui hno, h'.rest u hun hui hno]
+      exact List.map_inj_left.1 (by rw [h.ops e hmem, h'.ops e hmem, hsrc])
+  intro v hv
+  by_cases hvi : v ∈ d.ins
+  · exact hins v hvi
+  · by_cases hvt : ∃ j : Nat, ∃ e : PEdge A, d.edges[j]? = some e ∧ v ∈ e.tgt
+    · obtain ⟨j, e, he, hve⟩ := hvt
+      exact hedge (lay j) j e rfl he v hve
+    · have hno : ∀ e ∈ d.edges, v ∉ e.tgt := by
+        intro e he hve
+        obtain ⟨j, hj⟩ := List.getElem?_of_mem he
+        exact hvt ⟨j, e, hj, hve⟩
+      rw [h.rest v hv hvi hno, h'.rest v hv hvi hno]
+
+/-- an acyclic dependency relation admits a strictly increasing numbering (the depth) -/
+theorem exists_lay_of_noCycle (d : PDiag O A) (h : NoCycle d) :
+    ∃ lay : Nat → Nat, ∀ x y, opDep d x y → lay x < lay y := by
+  classical
+  have hdl : ∀ x z, opDep d x z → x < d.edges.length := fun x z hxz => (opDep_lt hxz).1
+  have hex : ∀ y, y < d.edges.length → ∃ k, HasDepth (opDep d) y k := fun y hy =>
+    (Kahn.exists_hasDepth_iff hdl hy).2 (h y hy)
+  refine ⟨fun y => if hy : ∃ k, HasDepth (opDep d) y k then Classical.choose hy else 0, ?_⟩
+  intro x y hxy
+  obtain ⟨hx, hy⟩ := opDep_lt hxy
+  simp only [dif_pos (hex x hx), dif_pos (hex y hy)]
+  have hdx := Classical.choose_spec (hex x hx)
+  have hdy := Classical.choose_spec (hex y hy)
+  by_contra hlt
+  exact hdy.2 (Kahn.chainTo_mono (by omega) (ChainTo.snoc x y _ hdx.1 hxy))
+
+theorem valuation_unique {d : PDiag O A} {opfn : A → List T → List T} {dflt : T}
+    {s : List T} {val val' : Nat → T} (hwf : d.wf = true) (hac : NoCycle d)
+    (h : IsValuation d opfn dflt s val) (h' : IsValuation d opfn dflt s val') :
+    ∀ v, v < d.n → val v = val' v := by
+  obtain ⟨lay, hlay⟩ := exists_lay_of_noCycle d hac
+  exact valuation_unique_of_lay lay hwf hlay h h'
+
+/-- `NoCycle` says that the dependency relation has no cycle -/
+theorem exists_onOrAfterCycle_iff (dep : Nat → Nat → Prop) :
+    (∃ y, OnOrAfterCycle dep y) ↔ ∃ c, TransGen dep c c := by
+  constructor
+  · rintro ⟨_, c, hc, _⟩
+    exact ⟨c, hc⟩
+  · rintro ⟨c, hc⟩
+    exact ⟨c, c, hc, ReflTransGen.refl⟩
+
+theorem transGen_right_dep {dep : Nat → Nat → Prop} {a b : Nat} (h : TransGen dep a b) :
+    ∃ x, dep x b := by
+  cases h with
+  | single h => exact ⟨_, h⟩
+  | tail _ h => exact ⟨_, h⟩
+
+theorem noCycle_iff (d : PDiag O A) : NoCycle d ↔ ¬ ∃ c, TransGen (opDep d) c c := by
+  constructor
+  · rintro h ⟨c, hc⟩
+    obtain ⟨x, hx⟩ := transGen_right_dep hc
+    exact h c (opDep_lt hx).2 ⟨c, hc, ReflTransGen.refl⟩
+  · intro h y _ hy
+    exact h ((exists_onOrAfterCycle_iff _).1 ⟨y, hy⟩)
+
+theorem exists_lt_onOrAfterCycle_iff (d : PDiag O A) :
+    (∃ y, y < d.edges.length ∧ OnOrAfterCycle (opDep d) y) ↔ ∃ c, TransGen (opDep d) c c := by
+  constructor
+  · rintro ⟨y, _, hy⟩
+    exact (exists_onOrAfterCycle_iff _).1 ⟨y, hy⟩
+  · rintro ⟨c, hc⟩
+    obtain ⟨x, hx⟩ := transGen_right_dep hc
+    exact ⟨c, (opDep_lt hx).2, c, hc, ReflTransGen.refl⟩
+
+/-! #### transport along an isomorphism -/
+
+/-- a valuation of `Q` pulled back along an isomorphism `P ≅ Q` is a valuation of `P` -/
+theorem valuation_of_iso {P Q : PDiag O A} {opfn : A → List T → List T} {dflt : T} {s : List T}
+    {val : Nat → T} (hiso : P ≅ Q) (hwf : P.wf = true) (h : IsValuation Q opfn dflt s val) :
+    ∃ π : Nat → Nat, (∀ i, i < P.n → π i < Q.n) ∧ Q.outs = P.outs.map π ∧
+      IsValuation P opfn dflt s (fun v => val (π v)) := by
+  obtain ⟨π, ρ, ⟨hπlt, hπinj, _⟩, ⟨hρlt, _, hρsurj⟩, _, hedge, hins, houts⟩ := hiso
+  obtain ⟨hPins, _, hPedges⟩ := pdiag_wf_unpack hwf
+  refine ⟨π, hπlt, houts, ⟨?_, ?_, ?_⟩⟩
+  · rw [← h.ins, hins, List.map_map]
+    rfl
+  · intro e he
+    obtain ⟨j, hj⟩ := List.getElem?_of_mem he
+    have hjl := (List.getElem?_eq_some_iff.1 hj).1
+    have hq := hedge j hjl
+    rw [hj, Option.map_some] at hq
+    have := h.ops _ (List.mem_of_getElem? hq)
+    simp only [PEdge.mapNodes, List.map_map] at this
+    exact this
+  · intro v hv hni hnt
+    apply h.rest (π v) (hπlt v hv)
+    · rw [hins, List.mem_map]
+      rintro ⟨u, hu, hπu⟩
+      have := hπinj u v (hPins u hu) hv hπu
+      exact hni (this ▸ hu)
+    · intro e' he' hve'
+      obtain ⟨k, hk⟩ := List.getElem?_of_mem he'
+      obtain ⟨j, hjl, hρj⟩ := hρsurj k (List.getElem?_eq_some_iff.1 hk).1
+      have hq := hedge j hjl
+      rw [hρj, hk, List.getElem?_eq_getElem hjl, Option.map_some] at hq
+      injection hq with hq
+      rw [hq] at hve'
+      simp only [PEdge.mapNodes, List.mem_map] at hve'
+      obtain ⟨u, hu, hπu⟩ := hve'
+      have hmem : P.edges[j] ∈ P.edges := List.getElem_mem _
+      have := hπinj u v ((hPedges _ hmem).2 u hu) hv hπu
+      exact hnt _ hmem (this ▸ hu)
+
+/-! ### Part 2: the model's `evalOrder` -/
+
+/-- the body of the `for op_ix in order` loop of `eval_order` -/
+def evalBody (f : OHG O A) (apply : Apply A T) (mem : List T) (opIx : List Nat) : Res (List T) := do
+  let opFF : FinFun := ⟨opIx, f.h.x.length⟩
+  let labels ← (FinFun.composeSemi opFF f.h.x).unwrap "eval:unwrap-labels"
+  let inIdx ← (IC.mapIndexes f.h.s opFF).unwrap "eval:unwrap-in-indexes"
+  let inVals ← (IC.mapSemifinite inIdx mem).unwrap "eval:unwrap-in-values"
+  let outputs := apply labels inVals
+  let outIdx ← (IC.mapIndexes f.h.t opFF).unwrap "eval:unwrap-out-indexes"
+  scatterAssign mem outIdx.values.table outputs.values
+
+theorem evalOrder_unfold (f : OHG O A) (dflt : T) (s : List T) (order : List (List Nat))
+    (apply : Apply A T) :
+    evalOrder f dflt s order apply = (do
+      let mem1 ← scatterAssign (List.replicate f.h.w.length dflt) f.s.table s
+      let mem ← order.foldlM (evalBody f apply) mem1
+      let outs ← gather mem f.t.table
+      pure (mem, outs)) := rfl
+
+/-- closed form of one loop iteration: the labels and the argument lists of the operations in
+    `g` are handed to `apply`, the flat result is written to the flat list of target nodes -/
+def stepM (f : OHG O A) (dflt : T) (apply : Apply A T) (mem : List T) (g : List Nat) : List T :=
+  writeAll mem ((g.flatMap (fun j => f.h.t.segs.getD j [])).zip
+    (apply (gatherP f.h.x g)
+      (IC.ofSegsL (g.map (fun j => (f.h.s.segs.getD j []).map (rd dflt mem))))).values)
+
+theorem stepM_length (f : OHG O A) (dflt : T) (apply : Apply A T) (mem : List T) (g : List Nat) :
+    (stepM f dflt apply mem g).length = mem.length := writeAll_length _ _
+
+/-- re-indexing one of the incidence arrays of a well-formed hypergraph by a group of
+    operations -/
+theorem mapIndexes_group (c : IC FinFun) (hc : c.wf = true) (g : List Nat) (m : Nat)
+    (hm : m = c.len) (hg : ∀ j ∈ g, j < m) :
+    ∃ e, IC.mapIndexes c ⟨g, m⟩ = .ok e ∧ e.valid = true ∧ e.values.WF ∧
+      e.values.target = c.values.target ∧ e.segs = g.map (fun j => c.segs.getD j []) ∧
+      e.values.table = g.flatMap (fun j => c.segs.getD j []) := by
+  obtain ⟨hcv, _, _⟩ := wf_unpack' c hc
+  obtain ⟨e, he, hev, het, hesegs, _, _⟩ :=
+    C08.mapIndexes_spec c ⟨g, m⟩ hcv (fun j hj => hg j hj) hm
+  have hflat : e.values.table = g.flatMap (fun j => c.segs.getD j []) := by
+    rw [← IC.segs_flatten e hev, hesegs, List.flatMap_def]
+  refine ⟨e, he, hev, ?_, het, hesegs, hflat⟩
+  intro v hv
+  rw [hflat, List.mem_flatMap] at hv
+  obtain ⟨j, _, hvj⟩ := hv
+  rw [het]
+  exact (mem_segs_getD_lt c hc j v hvj).2
+
+theorem evalBody_eq (f : OHG O A) (hf : f.wf = true) (dflt : T) (apply : Apply A T)
+    (mem : List T) (hmem : mem.length = f.h.w.length) (g : List Nat)
+    (hg : ∀ j ∈ g, j < f.h.x.length) :
+    evalBody f apply mem g = .ok (stepM f dflt apply mem g) := by
+  obtain ⟨hs, ht, hsl, htl, hst, htt⟩ := hg_wf_unpack f.h (C15.ohg_wf_h f hf)
+  obtain ⟨ei, hei, heiv, heiw, heit, heisegs, _⟩ := mapIndexes_group f.h.s hs g _ hsl.symm hg
+  obtain ⟨eo, heo, _, heow, heot, _, heoflat⟩ := mapIndexes_group f.h.t ht g _ htl.symm hg
+  obtain ⟨ev, hev, hevv, _, _, hevsegs⟩ :=
+    C08.mapSemifinite_spec ei mem heiv heiw (by rw [heit, hst, hmem])
+  have hevsegs' := hevsegs (rd dflt mem) (by
+    intro i hi
+    unfold rd
+    rw [List.getD_eq_getElem?_getD, List.getElem?_eq_getElem hi]
+    rfl)
+  have hevEq : ev = IC.ofSegsL (g.map (fun j => (f.h.s.segs.getD j []).map (rd dflt mem))) := by
+    rw [← IC.ofSegsL_segsL ev hevv, hevsegs', heisegs, List.map_map]
+    rfl
+  have hlab : FinFun.composeSemi ⟨g, f.h.x.length⟩ f.h.x = .ok (gatherP f.h.x g) :=
+    FinFun.composeSemi_ok ⟨g, f.h.x.length⟩ f.h.x (fun j hj => hg j hj) rfl
+  unfold evalBody
+  simp only [hlab, hei, hev, heo, Res.unwrap_ok, Res.ok_bind]
+  rw [scatterAssign_ok]
+  · rw [hevEq, heoflat]
+    rfl
+  · intro p hp
+    have := heow p.1 (List.of_mem_zip (a := p.1) (b := p.2) hp).1
+    rw [heot, htt, ← hmem] at this
+    exact this
+
+theorem foldlM_evalBody (f : OHG O A) (hf : f.wf = true) (dflt : T) (apply : Apply A T) :
+    ∀ (groups : List (List Nat)) (mem : List T), mem.length = f.h.w.length →
+      (∀ g ∈ groups, ∀ j ∈ g, j < f.h.x.length) →
+      groups.foldlM (evalBody f apply) mem = .ok (groups.foldl (stepM f dflt apply) mem) := by
+  intro groups
+  induction groups with
+  | nil => intro mem _ _; rfl
+  | cons g groups ih =>
+    intro mem hmem hg
+    rw [List.foldlM_cons, evalBody_eq f hf dflt apply mem hmem g (hg g (by simp)), Res.ok_bind,
+      List.foldl_cons]
+    exact ih _ (by rw [stepM_length, hmem]) (fun g' hg' => hg g' (by simp [hg']))
+
+theorem foldl_stepM_length (f : OHG O A) (dflt : T) (apply : Apply A T) :
+    ∀ (groups : List (List Nat)) (mem : List T),
+      (groups.foldl (stepM f dflt apply) mem).length = mem.length := by
+  intro groups
+  induction groups with
+  | nil => intro mem; rfl
+  | cons g groups ih =>
+    intro mem
+    rw [List.foldl_cons, ih, stepM_length]
+
+theorem ohg_wf_unpack (f : OHG O A) (hf : f.wf = true) :
+    f.h.wf = true ∧ f.s.WF ∧ f.t.WF ∧ f.s.target = f.h.w.length ∧ f.t.target = f.h.w.length := by
+  simp only [OHG.wf, Bool.and_eq_true, beq_iff_eq] at hf
+  obtain ⟨⟨⟨⟨h1, h2⟩, h3⟩, h4⟩, h5⟩ := hf
+  exact ⟨h1, (FinFun.wf_iff _).1 h2, (FinFun.wf_iff _).1 h3, h4, h5⟩
+
+/-- memory of the model before the first layer -/
+def initM (f : OHG O A) (dflt : T) (s : List T) : List T :=
+  writeAll (List.replicate f.h.w.length dflt) (f.s.table.zip s)
+
+/-- **closed form of `eval_order`** for a well-formed diagram, an ARBITRARY callback and any
+    grouping whose entries are operation numbers: it returns (never panics, never `none`); the
+    memory is the fold of `stepM`, the outputs are the memory read at the output interface -/
+theorem evalOrder_eq (f : OHG O A) (hf : f.wf = true) (dflt : T) (s : List T)
+    (groups : List (List Nat)) (hg : ∀ g ∈ groups, ∀ j ∈ g, j < f.h.x.length)
+    (apply : Apply A T) :
+    evalOrder f dflt s groups apply =
+      .ok (groups.foldl (stepM f dflt apply) (initM f dflt s),
+        f.t.table.map (rd dflt (groups.foldl (stepM f dflt apply) (initM f dflt s)))) := by
+  obtain ⟨_, hsw, htw, hst, htt⟩ := ohg_wf_unpack f hf
+  have hlen0 : (initM f dflt s).length = f.h.w.length := by
+    unfold initM
+    rw [writeAll_length, List.length_replicate]
+  have h1 : scatterAssign (List.replicate f.h.w.length dflt) f.s.table s = .ok (initM f dflt s) := by
+    apply scatterAssign_ok
+    intro p hp
+    have := hsw p.1 (List.of_mem_zip (a := p.1) (b := p.2) hp).1
+    rw [List.length_replicate, ← hst]
+    exact this
+  have hlenF : (groups.foldl (stepM f dflt apply) (initM f dflt s)).length = f.h.w.length := by
+    rw [foldl_stepM_length, hlen0]
+  have h3 : gather (groups.foldl (stepM f dflt apply) (initM f dflt s)) f.t.table =
+      .ok (f.t.table.map (rd dflt (groups.foldl (stepM f dflt apply) (initM f dflt s)))) := by
+    have hlt : ∀ i ∈ f.t.table,
+        i < (groups.foldl (stepM f dflt apply) (initM f dflt s)).length := by
+      intro i hi
+      rw [hlenF, ← htt]
+      exact htw i hi
+    rw [gather_ok _ _ hlt, FinFun.gatherP_eq_map _ _ (rd dflt _)]
+    intro i hi
+    unfold rd
+    rw [List.getD_eq_getElem?_getD, List.getElem?_eq_getElem (hlt i hi)]
+    rfl
+  rw [evalOrder_unfold, h1, Res.ok_bind, foldlM_evalBody f hf dflt apply groups _ hlen0 hg,
+    Res.ok_bind, h3]
+  rfl
+
+/-! #### the pointwise callback: the model's fold is `runLayers` on the plain diagram -/
+
+theorem toPlain_edges_getElem? (f : OHG O A) (hf : f.wf = true) (j : Nat)
+    (hj : j < f.h.x.length) :
+    f.toPlain.edges[j]? = some ⟨f.h.x[j], f.h.s.segs.getD j [], f.h.t.segs.getD j []⟩ := by
+  show f.h.toPlainEdges[j]? = _
+  rw [toPlainEdges_getElem? f.h (C15.ohg_wf_h f hf)]
+  exact ⟨hj, List.getElem?_eq_getElem hj, rfl, rfl⟩
+
+theorem toPlain_edges_length (f : OHG O A) (hf : f.wf = true) :
+    f.toPlain.edges.length = f.h.x.length :=
+  toPlainEdges_length f.h (C15.ohg_wf_h f hf)
+
+theorem zipWith_opfn_eq (f : OHG O A) (hf : f.wf = true) (opfn : A → List T → List T)
+    (dflt : T) (mem : List T) (g : List Nat) (hg : ∀ j ∈ g, j < f.h.x.length) :
+    List.zipWith opfn (gatherP f.h.x g)
+        (g.map (fun j => (f.h.s.segs.getD j []).map (rd dflt mem))) =
+      g.map (outOf f.toPlain opfn dflt mem) := by
+  induction g with
+  | nil => rfl
+  | cons j g ih =>
+    have hj := hg j (by simp)
+    have ih' := ih (fun i hi => hg i (by simp [hi]))
+    have hhead : gatherP f.h.x (j :: g) = f.h.x[j] :: gatherP f.h.x g := by
+      simp [gatherP, List.getElem?_eq_getElem hj]
+    rw [hhead, List.map_cons, List.zipWith_cons_cons, ih', List.map_cons,
+      outOf_of_some opfn dflt mem (toPlain_edges_getElem? f hf j hj)]
+
+theorem stepM_applyOf (f : OHG O A) (hf : f.wf = true) (opfn : A → List T → List T)
+    (dflt : T) (mem : List T) (g : List Nat) (hg : ∀ j ∈ g, j < f.h.x.length) :
+    stepM f dflt (applyOf opfn) mem g = layerStep f.toPlain opfn dflt mem g := by
+  unfold stepM layerStep applyOf
+  rw [IC.segsL_ofSegsL, zipWith_opfn_eq f hf opfn dflt mem g hg]
+  have h1 : g.flatMap (fun j => f.h.t.segs.getD j []) = g.flatMap (tgtOf f.toPlain) := by
+    apply List.flatMap_congr
+    intro j hj
+    rw [tgtOf_of_some (toPlain_edges_getElem? f hf j (hg j hj))]
+  rw [h1, List.flatMap_def (f := outOf f.toPlain opfn dflt mem)]
+  rfl
+
+theorem foldl_stepM_applyOf (f : OHG O A) (hf : f.wf = true) (opfn : A → List T → List T)
+    (dflt : T) : ∀ (groups : List (List Nat)) (mem : List T),
+      (∀ g ∈ groups, ∀ j ∈ g, j < f.h.x.length) →
+      groups.foldl (stepM f dflt (applyOf opfn)) mem =
+        groups.foldl (layerStep f.toPlain opfn dflt) mem := by
+  intro groups
+  induction groups with
+  | nil => intro mem _; rfl
+  | cons g groups ih =>
+    intro mem hg
+    rw [List.foldl_cons, List.foldl_cons, stepM_applyOf f hf opfn dflt mem g (hg g (by simp))]
+    exact ih _ (fun g' hg' => hg g' (by simp [hg']))
+
+/-- `eval_order` with the pointwise callback runs the layers of the plain diagram -/
+theorem evalOrder_applyOf (f : OHG O A) (hf : f.wf = true) (opfn : A → List T → List T)
+    (dflt : T) (s : List T) (groups : List (List Nat))
+    (hg : ∀ g ∈ groups, ∀ j ∈ g, j < f.h.x.length) :
+    evalOrder f dflt s groups (applyOf opfn) =
+      .ok (runLayers f.toPlain opfn dflt s groups,
+        f.t.table.map (rd dflt (runLayers f.toPlain opfn dflt s groups))) := by
+  rw [evalOrder_eq f hf dflt s groups hg, foldl_stepM_applyOf f hf opfn dflt groups _ hg]
+  rfl
+
+/-! #### `eval`: layering, cycle test, evaluation -/
+
+theorem eval_unfold (B : Backend) (f : OHG O A) (dflt : T) (s : List T) (apply : Apply A T)
+    (order : FinFun) (unv : List Nat) (groups : List (List Nat))
+    (hl : layer B f = .ok (order, unv)) (hc : converseIter B order = .ok groups) :
+    eval B f dflt s apply =
+      if (Prim.max unv).getD 0 = 0 then
+        (evalOrder f dflt s groups apply) >>= fun r => .ok r.2
+      else .none := by
+  unfold eval
+  rw [hl, Res.ok_bind]
+  simp only [hc, Res.ok_bind]
+  rfl
+
+/-- the data `eval` computes before the loop, with everything C15 says about them -/
+theorem eval_layers (B : Backend) (hB : B.Lawful) (f : OHG O A) (hf : f.wf = true) :
+    ∃ order unv groups, layer B f = .ok (⟨order, f.h.x.length⟩, unv) ∧
+      converseIter B ⟨order, f.h.x.length⟩ = .ok groups ∧
+      order.length = f.h.x.length ∧ unv.length = f.h.x.length ∧
+      (∀ k ∈ order, k < f.h.x.length) ∧ groups.length = f.h.x.length ∧
+      (∀ i y, (groups.getD i []).count y = if order[y]? = some i then 1 else 0) ∧
+      (∀ y, y < f.h.x.length →
+        (unv[y]? = some 0 ↔ ¬ OnOrAfterCycle (opDep f.toPlain) y) ∧
+        (unv[y]? = some 0 ∨ unv[y]? = some 1)) := by
+  obtain ⟨order, unv, groups, hl, hlo, hglen, hol, hlt, hcount⟩ :=
+    C15.layeredOperations_core B hB f hf
+  obtain ⟨order', unv', hl', _, hul, _, _⟩ := C15.layer_core B hB f hf
+  rw [hl] at hl'
+  injection hl' with hl'
+  injection hl' with ho hu
+  injection ho with ho
+  subst ho hu
+  have hspec := C15.layer_spec B hB f hf _ _ hl
+  refine ⟨order, unv, groups, hl, ?_, hol, hul, hlt, hglen, hcount, ?_⟩
+  · unfold layeredOperations at hlo
+    rw [hl, Res.ok_bind] at hlo
+    dsimp only at hlo
+    cases hc : converseIter B ⟨order, f.h.x.length⟩ with
+    | ok g' =>
+      rw [hc] at hlo
+      simp only [Res.ok_bind, Res.pure_eq] at hlo
+      injection hlo with hlo
+      injection hlo with hg _
+      rw [hg]
+    | none => rw [hc] at hlo; cases hlo
+    | panic site => rw [hc] at hlo; cases hlo
+  · intro y hy
+    exact ⟨(hspec y hy).2.1, (hspec y hy).2.2.1⟩
+
+theorem groups_in_range {groups : List (List Nat)} {order : List Nat} {m : Nat}
+    (hol : order.length = m)
+    (hcount : ∀ i y, (groups.getD i []).count y = if order[y]? = some i then 1 else 0) :
+    ∀ g ∈ groups, ∀ j ∈ g, j < m := by
+  intro g hg j hj
+  obtain ⟨i, hi, rfl⟩ := List.getElem_of_mem hg
+  have hc := hcount i j
+  rw [List.getD_eq_getElem?_getD, List.getElem?_eq_getElem hi, Option.getD_some] at hc
+  have hpos : 0 < (groups[i]).count j := List.count_pos_iff.2 hj
+  by_cases h : order[j]? = some i
+  · rw [← hol]
+    exact (List.getElem?_eq_some_iff.1 h).1
+  · rw [if_neg h] at hc
+    omega
+
+/-- the cycle test of `eval`: the maximum of the marks is 0 iff every operation is visited -/
+theorem max_unvisited_eq_zero_iff (unv : List Nat) :
+    (Prim.max unv).getD 0 = 0 ↔ ∀ y, y < unv.length → unv[y]? = some 0 := by
+  constructor
+  · intro h y hy
+    cases hm : Prim.max unv with
+    | none =>
+      rw [max_eq_none_iff] at hm
+      subst hm
+      exact absurd hy (Nat.not_lt_zero _)
+    | some mx =>
+      rw [hm] at h
+      simp only [Option.getD_some] at h
+      have := (max_eq_some unv mx hm).2 unv[y] (List.getElem_mem _)
+      rw [List.getElem?_eq_getElem hy]
+      congr 1
+      omega
+  · intro h
+    cases hm : Prim.max unv with
+    | none => rfl
+    | some mx =>
+      obtain ⟨i, hi, hix⟩ := List.getElem_of_mem (max_eq_some unv mx hm).1
+      have := h i hi
+      rw [List.getElem?_eq_getElem hi, hix] at this
+      exact congrArg (fun o => Option.getD o 0) this
+
+/-- **`eval` in closed form** (arbitrary callback): no result iff some operation is on or after a
+    dependency cycle, otherwise the outputs of the fold of `stepM` over the layers -/
+theorem eval_cases (B : Backend) (hB : B.Lawful) (f : OHG O A) (hf : f.wf = true) (dflt : T)
+    (s : List T) (apply : Apply A T) :
+    ∃ (order : List Nat) (groups : List (List Nat)), groups.length = f.h.x.length ∧
+      order.length = f.h.x.length ∧ (∀ k ∈ order, k < f.h.x.length) ∧
+      (∀ i y, (groups.getD i []).count y = if order[y]? = some i then 1 else 0) ∧
+      (∀ g ∈ groups, ∀ j ∈ g, j < f.h.x.length) ∧
+      ((∃ y, y < f.h.x.length ∧ OnOrAfterCycle (opDep f.toPlain) y) →
+        eval B f dflt s apply = .none) ∧
+      ((∀ y, y < f.h.x.length → ¬ OnOrAfterCycle (opDep f.toPlain) y) →
+        layer B f = .ok (⟨order, f.h.x.length⟩, List.replicate f.h.x.length 0) ∧
+        eval B f dflt s apply =
+          .ok (f.t.table.map (rd dflt (groups.foldl (stepM f dflt apply) (initM f dflt s))))) := by
+  obtain ⟨order, unv, groups, hl, hc, hol, hul, hlt, hglen, hcount, hspec⟩ :=
+    eval_layers B hB f hf
+  have hrange := groups_in_range hol hcount
+  have hev := eval_unfold B f dflt s apply _ unv groups hl hc
+  refine ⟨order, groups, hglen, hol, hlt, hcount, hrange, ?_, ?_⟩
+  · rintro ⟨y, hy, hcyc⟩
+    rw [hev, if_neg]
+    rw [max_unvisited_eq_zero_iff]
+    intro h
+    exact ((hspec y hy).1.1 (h y (by rw [hul]; exact hy))) hcyc
+  · intro hac
+    have hall : ∀ y, y < unv.length → unv[y]? = some 0 := by
+      intro y hy
+      rw [hul] at hy
+      exact (hspec y hy).1.2 (hac y hy)
+    have hunv : unv = List.replicate f.h.x.length 0 := by
+      apply List.ext_getElem?
+      intro y
+      by_cases hy : y < unv.length
+      · rw [hall y hy, List.getElem?_replicate, if_pos (hul ▸ hy)]
+      · rw [List.getElem?_eq_none (by omega), List.getElem?_eq_none (by
+          rw [List.length_replicate]; omega)]
+    refine ⟨by rw [hl, hunv], ?_⟩
+    rw [hev, if_pos ((max_unvisited_eq_zero_iff unv).2 hall),
+      evalOrder_eq f hf dflt s groups hrange apply]
+    rfl
+
+/-- the layering computed by `eval` on an acyclic diagram is a layering in the sense of Part 1 -/
+theorem isLayering_of_layer (B : Backend) (hB : B.Lawful) (f : OHG O A) (hf : f.wf = true)
+    (order : List Nat) (groups : List (List Nat))
+    (hl : layer B f = .ok (⟨order, f.h.x.length⟩, List.replicate f.h.x.length 0))
+    (hglen : groups.length = f.h.x.length) (hol : order.length = f.h.x.length)
+    (hlt : ∀ k ∈ order, k < f.h.x.length)
+    (hcount : ∀ i y, (groups.getD i []).count y = if order[y]? = some i then 1 else 0) :
+    IsLayering f.toPlain (fun y => order.getD y 0) groups := by
+  have hm := toPlain_edges_length f hf
+  refine ⟨?_, ?_, ?_, ?_⟩
+  · intro i y
+    rw [← List.count_pos_iff, hcount, hm]
+    by_cases h : order[y]? = some i
+    · have hy := (List.getElem?_eq_some_iff.1 h).1
+      rw [if_pos h]
+      refine ⟨fun _ => ⟨hol ▸ hy, ?_⟩, fun _ => Nat.one_pos⟩
+      rw [List.getD_eq_getElem?_getD, h]
+      rfl
+    · rw [if_neg h]
+      refine ⟨fun h0 => absurd h0 (Nat.lt_irrefl 0), ?_⟩
+      rintro ⟨hy, heq⟩
+      exfalso
+      apply h
+      rw [List.getD_eq_getElem?_getD, List.getElem?_eq_getElem (hol ▸ hy)] at heq
+      rw [List.getElem?_eq_getElem (hol ▸ hy)]
+      simpa using heq
+  · intro i
+    rw [List.nodup_iff_count_le_one]
+    intro y
+    rw [hcount]
+    split <;> omega
+  · intro y hy
+    rw [hm] at hy
+    rw [hglen, List.getD_eq_getElem?_getD, List.getElem?_eq_getElem (hol ▸ hy)]
+    exact hlt _ (List.getElem_mem _)
+  · intro x y hxy
+    obtain ⟨hx, hy⟩ := C15.dep_lt f hf hxy
+    have hvis : (List.replicate f.h.x.length 0)[y]? = some 0 := by
+      rw [List.getElem?_replicate, if_pos hy]
+    obtain ⟨i, j, hi, hj, hij⟩ := C15.layer_respects_deps B hB f hf _ _ hl hvis hxy
+    simp only [List.getD_eq_getElem?_getD] at hi hj ⊢
+    rw [hi, hj]
+    exact hij
+
+theorem toPlain_wf (f : OHG O A) (hf : f.wf = true) : f.toPlain.wf = true :=
+  ((OHG.wf_iff f).1 hf).toPlain_wf
+
+/-! ### the sequential interpreter (one operation at a time) -/
+
+/-- interpret operation `j`: read its sources, write its targets -/
+def seqStep (d : PDiag O A) (opfn : A → List T → List T) (dflt : T) (mem : List T) (j : Nat) :
+    List T :=
+  writeAll mem ((tgtOf d j).zip (outOf d opfn dflt mem j))
+
+/-- interpret the operations in the order `σ` -/
+def seqRun (d : PDiag O A) (opfn : A → List T → List T) (dflt : T) (s : List T) (σ : List Nat) :
+    List T :=
+  σ.foldl (seqStep d opfn dflt) (initMem d dflt s)
+
+theorem seqRun_eq_runLayers (d : PDiag O A) (opfn : A → List T → List T) (dflt : T) (s : List T)
+    (σ : List Nat) : seqRun d opfn dflt s σ = runLayers d opfn dflt s (σ.map (fun j => [j])) := by
+  unfold seqRun runLayers
+  rw [List.foldl_map]
+  congr 1
+  funext mem j
+  simp [layerStep, seqStep]
+
+/-- an order of all operations that respects the dependencies is a layering by singletons -/
+theorem isLayering_of_order (d : PDiag O A) (σ : List Nat)
+    (hperm : σ.Perm (List.range d.edges.length))
+    (hresp : ∀ x y, opDep d x y → σ.idxOf x < σ.idxOf y) :
+    IsLayering d (fun y => σ.idxOf y) (σ.map (fun j => [j])) := by
+  have hnd : σ.Nodup := hperm.nodup_iff.2 List.nodup_range
+  have hmem : ∀ y, y ∈ σ ↔ y < d.edges.length := fun y => by
+    rw [hperm.mem_iff, List.mem_range]
+  have hget : ∀ i, (σ.map (fun j => [j])).getD i [] = (σ[i]?.map (fun j => [j])).getD [] := by
+    intro i
+    rw [List.getD_eq_getElem?_getD, List.getElem?_map]
+  refine ⟨?_, ?_, ?_, hresp⟩
+  · intro i y
+    rw [hget, ← hmem]
+    cases hi : σ[i]? with
+    | none =>
+      simp only [Option.map_none, Option.getD_none, List.not_mem_nil, false_iff, not_and]
+      intro hy heq
+      rw [← heq, List.getElem?_eq_none_iff] at hi
+      exact absurd (List.idxOf_lt_length_iff.2 hy) (by omega)
+    | some z =>
+      obtain ⟨hil, hiz⟩ := List.getElem?_eq_some_iff.1 hi
+      simp only [Option.map_some, Option.getD_some, List.mem_singleton]
+      constructor
+      · rintro rfl
+        refine ⟨hiz ▸ List.getElem_mem _, ?_⟩
+        rw [← hiz]
+        exact List.Nodup.idxOf_getElem hnd i hil
+      · rintro ⟨hy, heq⟩
+        rw [← hiz]
+        subst heq
+        exact (List.getElem_idxOf _).symm
+  · intro i
+    rw [hget]
+    cases σ[i]? with
+    | none => simp
+    | some z => simp
+  · intro y hy
+    rw [List.length_map]
+    exact List.idxOf_lt_length_iff.2 ((hmem y).2 hy)
+
+/-! ### a checkable criterion for acyclicity (for concrete diagrams) -/
+
+/-- executable form of `opDep` -/
+def depB (d : PDiag O A) (x y : Nat) : Bool :=
+  match d.edges[x]?, d.edges[y]? with
+  | some ex, some ey => ex.tgt.any (fun v => ey.src.contains v)
+  | _, _ => false
+
+theorem opDep_iff_depB (d : PDiag O A) (x y : Nat) : opDep d x y ↔ depB d x y = true := by
+  unfold opDep depB
+  cases hx : d.edges[x]? with
+  | none => simp
+  | some ex =>
+    cases hy : d.edges[y]? with
+    | none => simp
+    | some ey => simp
+
+theorem noCycle_of_lay (d : PDiag O A) (lay : Nat → Nat)
+    (h : ∀ x y, opDep d x y → lay x < lay y) : NoCycle d := by
+  rw [noCycle_iff]
+  rintro ⟨c, hc⟩
+  have hmono : ∀ a b, TransGen (opDep d) a b → lay a < lay b := by
+    intro a b hab
+    induction hab with
+    | single h1 => exact h _ _ h1
+    | tail _ h2 ih => exact Nat.lt_trans ih (h _ _ h2)
+  exact Nat.lt_irrefl _ (hmono c c hc)
+
+/-- acyclicity from a decidable check: a numbering that strictly increases along `depB` -/
+theorem noCycle_of_check (d : PDiag O A) (lay : Nat → Nat)
+    (h : ∀ x, x < d.edges.length → ∀ y, y < d.edges.length → depB d x y = true → lay x < lay y) :
+    NoCycle d := by
+  apply noCycle_of_lay d lay
+  intro x y hxy
+  obtain ⟨hx, hy⟩ := opDep_lt hxy
+  exact h x hx y hy ((opDep_iff_depB d x y).1 hxy)
+
+/-! ### the hypotheses are invariant under isomorphism -/
+
+section iso
+
+variable {P Q : PDiag O A} {π ρ : Nat → Nat}
+
+theorem iso_edge_fwd
+    (hedge : ∀ e, e < P.edges.length → Q.edges[ρ e]? = (P.edges[e]?).map (PEdge.mapNodes π))
+    {j : Nat} {e : PEdge A} (hj : P.edges[j]? = some e) :
+    Q.edges[ρ j]? = some (e.mapNodes π) := by
+  rw [hedge j (List.getElem?_eq_some_iff.1 hj).1, hj, Option.map_some]
+
+theorem iso_edge_bwd (hρ : BijOn P.edges.length Q.edges.length ρ)
+    (hedge : ∀ e, e < P.edges.length → Q.edges[ρ e]? = (P.edges[e]?).map (PEdge.mapNodes π))
+    {k : Nat} {e' : PEdge A} (hk : Q.edges[k]? = some e') :
+    ∃ j e, P.edges[j]? = some e ∧ ρ j = k ∧ e' = e.mapNodes π := by
+  obtain ⟨j, hjl, hρj⟩ := hρ.2.2 k (List.getElem?_eq_some_iff.1 hk).1
+  refine ⟨j, P.edges[j], List.getElem?_eq_getElem hjl, hρj, ?_⟩
+  have := iso_edge_fwd hedge (List.getElem?_eq_getElem hjl)
+  rw [hρj, hk] at this
+  injection this
+
+theorem arity_of_iso {opfn : A → List T → List T} (hiso : P ≅ Q) (ha : Arity P opfn) :
+    Arity Q opfn := by
+  obtain ⟨π, ρ, _, hρ, _, hedge, _, _⟩ := hiso
+  intro e' he' args hargs
+  obtain ⟨k, hk⟩ := List.getElem?_of_mem he'
+  obtain ⟨j, e, hj, _, rfl⟩ := iso_edge_bwd hρ hedge hk
+  simp only [PEdge.mapNodes, List.length_map] at hargs ⊢
+  exact ha e (List.mem_of_getElem? hj) args hargs
+
+theorem opDep_of_iso (hπ : BijOn P.n Q.n π) (hwf : P.wf = true)
+    (hedge : ∀ e, e < P.edges.length → Q.edges[ρ e]? = (P.edges[e]?).map (PEdge.mapNodes π))
+    {x y : Nat} (hx : x < P.edges.length) (hy : y < P.edges.length)
+    (h : opDep Q (ρ x) (ρ y)) : opDep P x y := by
+  obtain ⟨_, _, hPedges⟩ := pdiag_wf_unpack hwf
+  obtain ⟨ex', ey', v, hex', hey', hvt, hvs⟩ := h
+  have h1 := iso_edge_fwd hedge (List.getElem?_eq_getElem hx)
+  have h2 := iso_edge_fwd hedge (List.getElem?_eq_getElem hy)
+  rw [hex'] at h1
+  rw [hey'] at h2
+  injection h1 with h1
+  injection h2 with h2
+  subst h1 h2
+  simp only [PEdge.mapNodes, List.mem_map] at hvt hvs
+  obtain ⟨a, ha, hπa⟩ := hvt
+  obtain ⟨b, hb, hπb⟩ := hvs
+  have hab : a = b := hπ.2.1 a b ((hPedges _ (List.getElem_mem hx)).2 a ha)
+    ((hPedges _ (List.getElem_mem hy)).1 b hb) (by rw [hπa, hπb])
+  subst hab
+  exact ⟨_, _, a, List.getElem?_eq_getElem hx, List.getElem?_eq_getElem hy, ha, hb⟩
+
+theorem noCycle_of_iso (hiso : P ≅ Q) (hwf : P.wf = true) (hac : NoCycle P) : NoCycle Q := by
+  classical
+  obtain ⟨π, ρ, hπ, hρ, _, hedge, _, _⟩ := hiso
+  obtain ⟨lay, hlay⟩ := exists_lay_of_noCycle P hac
+  have hex : ∀ k, k < Q.edges.length → ∃ j, j < P.edges.length ∧ ρ j = k := hρ.2.2
+  apply noCycle_of_lay Q
+    (fun k => if h : ∃ j, j < P.edges.length ∧ ρ j = k then lay (Classical.choose h) else 0)
+  intro x' y' hxy
+  obtain ⟨hx', hy'⟩ := opDep_lt hxy
+  simp only [dif_pos (hex x' hx'), dif_pos (hex y' hy')]
+  obtain ⟨hx, hρx⟩ := Classical.choose_spec (hex x' hx')
+  obtain ⟨hy, hρy⟩ := Classical.choose_spec (hex y' hy')
+  apply hlay
+  apply opDep_of_iso hπ hwf hedge hx hy
+  rw [hρx, hρy]
+  exact hxy
+
+theorem singleWriter_of_iso (hiso : P ≅ Q) (hwf : P.wf = true) (hsw : SingleWriter P) :
+    SingleWriter Q := by
+  obtain ⟨π, ρ, hπ, hρ, _, hedge, hins, _⟩ := hiso
+  obtain ⟨hPins, _, hPedges⟩ := pdiag_wf_unpack hwf
+  have hinj := hπ.2.1
+  -- preimage of a target of an edge of `Q`
+  have hpre : ∀ k e' v, Q.edges[k]? = some e' → v ∈ e'.tgt →
+      ∃ j e u, P.edges[j]? = some e ∧ ρ j = k ∧ u ∈ e.tgt ∧ u < P.n ∧ π u = v := by
+    intro k e' v hk hv
+    obtain ⟨j, e, hj, hρj, rfl⟩ := iso_edge_bwd hρ hedge hk
+    simp only [PEdge.mapNodes, List.mem_map] at hv
+    obtain ⟨u, hu, hπu⟩ := hv
+    exact ⟨j, e, u, hj, hρj, hu, (hPedges e (List.mem_of_getElem? hj)).2 u hu, hπu⟩
+  unfold SingleWriter
+  rw [List.nodup_append]
+  refine ⟨?_, ?_, ?_⟩
+  · rw [hins]
+    exact List.Nodup.map_on (fun a ha b hb hab => hinj a b (hPins a ha) (hPins b hb) hab)
+      (sw_ins_nodup hsw)
+  · rw [List.nodup_flatMap]
+    refine ⟨?_, ?_⟩
+    · intro e' he'
+      obtain ⟨k, hk⟩ := List.getElem?_of_mem he'
+      obtain ⟨j, e, hj, _, rfl⟩ := iso_edge_bwd hρ hedge hk
+      have hmem := List.mem_of_getElem? hj
+      exact List.Nodup.map_on (fun a ha b hb hab =>
+        hinj a b ((hPedges e hmem).2 a ha) ((hPedges e hmem).2 b hb) hab) (sw_tgt_nodup hsw e hmem)
+    · rw [List.pairwise_iff_getElem]
+      intro i j hi hj hij
+      simp only [Function.onFun]
+      intro v hv hv'
+      obtain ⟨a, ea, u, hea, hρa, hu, hun, hπu⟩ :=
+        hpre i _ v (List.getElem?_eq_getElem hi) hv
+      obtain ⟨b, eb, u', heb, hρb, hu', hun', hπu'⟩ :=
+        hpre j _ v (List.getElem?_eq_getElem hj) hv'
+      have huu : u = u' := hinj u u' hun hun' (by rw [hπu, hπu'])
+      subst huu
+      have hab := sw_edge_unique hsw hea heb hu hu'
+      subst hab
+      omega
+  · intro v hv w hw hvw
+    subst hvw
+    rw [hins, List.mem_map] at hv
+    obtain ⟨u, hu, hπu⟩ := hv
+    obtain ⟨e', he', hve'⟩ := List.mem_flatMap.1 hw
+    obtain ⟨k, hk⟩ := List.getElem?_of_mem he'
+    obtain ⟨j, e, u', hj, _, hu', hun', hπu'⟩ := hpre k e' v hk hve'
+    have huu : u = u' := hinj u u' (hPins u hu) hun' (by rw [hπu, hπu'])
+    subst huu
+    exact sw_ins_not_tgt hsw u hu e (List.mem_of_getElem? hj) hu'
+
+end iso
+
+/-! ### the input list is not length-checked -/
+
+theorem map_fst_zip_take {β γ : Type} : ∀ (a : List β) (b : List γ),
+    (a.zip b).map Prod.fst = a.take b.length
+  | [], _ => by simp
+  | _ :: _, [] => by simp
+  | x :: a, y :: b => by simp [map_fst_zip_take a b]
+
+/-- reading the initial memory: input node number `i` carries `s[i]` if the list is long enough
+    and the default otherwise; all other nodes carry the default -/
+theorem initMem_rd (d : PDiag O A) (dflt : T) (s : List T) (hn : d.ins.Nodup)
+    (hlt : ∀ v ∈ d.ins, v < d.n) :
+    (∀ i (hi : i < d.ins.length), rd dflt (initMem d dflt s) d.ins[i] = s.getD i dflt) ∧
+    (∀ v, v ∉ d.ins → rd dflt (initMem d dflt s) v = dflt) := by
+  have hrep : ∀ v, (List.replicate d.n dflt).getD v dflt = dflt := by
+    intro v
+    rw [List.getD_eq_getElem?_getD, List.getElem?_replicate]
+    split <;> rfl
+  constructor
+  · intro i hi
+    unfold initMem rd
+    by_cases his : i < s.length
+    · rw [List.getD_eq_getElem?_getD (l := s), List.getElem?_eq_getElem his, Option.getD_some]
+      apply writeAll_getD_of_mem_nodup
+      · rw [map_fst_zip_take]
+        exact hn.sublist (List.take_sublist _ _)
+      · have : (d.ins[i], s[i]) = (d.ins.zip s)[i]'(by rw [List.length_zip]; omega) := by
+          rw [List.getElem_zip]
+        rw [this]
+        exact List.getElem_mem _
+      · rw [List.length_replicate]
+        exact hlt _ (List.getElem_mem _)
+    · rw [List.getD_eq_getElem?_getD (l := s), List.getElem?_eq_none (by omega), Option.getD_none,
+        writeAll_getD_of_not_mem, hrep]
+      intro p hp heq
+      have hmem : p.1 ∈ (d.ins.zip s).map Prod.fst := List.mem_map_of_mem hp
+      rw [map_fst_zip_take, heq, List.mem_take_iff_getElem] at hmem
+      obtain ⟨j, hj, hji⟩ := hmem
+      have := (hn.getElem_inj_iff (hi := by omega) (hj := hi)).1 hji
+      omega
+  · intro v hv
+    unfold initMem rd
+    rw [writeAll_getD_of_not_mem, hrep]
+    intro p hp heq
+    apply hv
+    rw [← heq]
+    exact (List.of_mem_zip (a := p.1) (b := p.2) hp).1
+
+theorem eq_of_rd_eq (dflt : T) (m₁ m₂ : List T) (hlen : m₁.length = m₂.length)
+    (h : ∀ v, rd dflt m₁ v = rd dflt m₂ v) : m₁ = m₂ := by
+  apply List.ext_getElem hlen
+  intro v h1 h2
+  have := h v
+  unfold rd at this
+  rw [List.getD_eq_getElem?_getD, List.getD_eq_getElem?_getD, List.getElem?_eq_getElem h1,
+    List.getElem?_eq_getElem h2] at this
+  exact this
+
+/-- the input list cut or padded with the default to the length of the input interface -/
+def normInput (k : Nat) (dflt : T) (s : List T) : List T := (List.range k).map (s.getD · dflt)
+
+theorem normInput_length (k : Nat) (dflt : T) (s : List T) : (normInput k dflt s).length = k := by
+  simp [normInput]
+
+theorem normInput_of_length (dflt : T) (s : List T) : normInput s.length dflt s = s := by
+  apply List.ext_getElem (normInput_length _ _ _)
+  intro i h1 h2
+  simp [normInput, List.getD_eq_getElem?_getD, List.getElem?_eq_getElem h2]
+
+theorem initMem_normInput (d : PDiag O A) (dflt : T) (s : List T) (hn : d.ins.Nodup)
+    (hlt : ∀ v ∈ d.ins, v < d.n) :
+    initMem d dflt (normInput d.ins.length dflt s) = initMem d dflt s := by
+  apply eq_of_rd_eq dflt
+  · unfold initMem
+    rw [writeAll_length, writeAll_length]
+  · intro v
+    obtain ⟨h1, h2⟩ := initMem_rd d dflt s hn hlt
+    obtain ⟨h1', h2'⟩ := initMem_rd d dflt (normInput d.ins.length dflt s) hn hlt
+    by_cases hv : v ∈ d.ins
+    · obtain ⟨i, hi, rfl⟩ := List.getElem_of_mem hv
+      rw [h1 i hi, h1' i hi]
+      simp [normInput, List.getD_eq_getElem?_getD, hi]
+    · rw [h2 v hv, h2' v hv]
+
+/-- `eval` depends on the input list only through the initial memory -/
+theorem eval_congr_input (B : Backend) (hB : B.Lawful) (f : OHG O A) (hf : f.wf = true)
+    (dflt : T) (s s' : List T) (apply : Apply A T) (h : initM f dflt s = initM f dflt s') :
+    eval B f dflt s apply = eval B f dflt s' apply := by
+  obtain ⟨order, unv, groups, hl, hc, hol, hul, hlt, hglen, hcount, hspec⟩ :=
+    eval_layers B hB f hf
+  have hrange := groups_in_range hol hcount
+  rw [eval_unfold B f dflt s apply _ unv groups hl hc,
+    eval_unfold B f dflt s' apply _ unv groups hl hc,
+    evalOrder_eq f hf dflt s groups hrange apply, evalOrder_eq f hf dflt s' groups hrange apply, h]
 
 end OH.Eval
